@@ -503,7 +503,7 @@ func c14Sustained(c *core.Ctx) {
 // has no effect: everything made before and after it is executed exactly once and returns, Wait returns, Count is 0.
 func c14Rejected(c *core.Ctx) {
 	n := 1 + c.Rng.IntN(3)
-	before, after := 2+c.Rng.IntN(4), 1+c.Rng.IntN(4)
+	before, after := 2+c.Rng.IntN(4), c.Rng.IntN(4) // (after == 0: nothing follows the rejected call that could revive the pool)
 	r := newC14Run(c, before+after)
 	gate := make(chan struct{})
 	var wg sync.WaitGroup
